@@ -7,7 +7,7 @@ use crate::{
     expr::Expr,
     parser::{
         parse_file_internal, CodePoint, DataDefine, Item, NextItem, ParseContext, Segment,
-        SegmentType,
+        SegmentType, MAX_INCLUDE_DEPTH,
     },
 };
 
@@ -109,6 +109,7 @@ impl Directive {
             segments,
             macros,
             messages,
+            include_depth,
         } = context;
 
         match self {
@@ -272,6 +273,13 @@ impl Directive {
             Directive::Include => {
                 if let DirectiveOps::OpList(values) = &opts {
                     if let Some(Operand::S(include)) = values.first() {
+                        if *include_depth >= MAX_INCLUDE_DEPTH {
+                            bail!(
+                                "include of {} is recursive or nested too deeply, {}",
+                                include,
+                                point,
+                            );
+                        }
                         let context = ParseContext {
                             current_path: PathBuf::from(include),
                             include_paths: include_paths.clone(),
@@ -279,6 +287,7 @@ impl Directive {
                             segments: segments.clone(),
                             macros: macros.clone(),
                             messages: messages.clone(),
+                            include_depth: include_depth + 1,
                         };
                         parse_file_internal(&context)?;
                         include_paths
